@@ -362,7 +362,50 @@ impl Meta {
     }
 
     // ------------------------------------------------------------------ C12
+    /// A program that seeds the generator itself (RND(-k)) gets the same numbers whatever the session did
+    /// before: the seed replaces all of the generator's state.
+    fn c12_rnd(&self, rng: &mut Rng, ctx: &mut Ctx) {
+        let mut a = Session::new();
+        a.drain(16);
+        let mut b = Session::new();
+        b.drain(16);
+        let mut script: Vec<String> = vec![];
+        for pre in ["PRINT RND(1);RND(1)", "10 PRINT RND(1)", "RUN", "CLEAR", "RUN"].iter().take(1 + rng.usize(5)) {
+            script.push(format!("(second session only) {}", pre));
+            cmd(&mut b, pre);
+        }
+        for _ in 0..12 {
+            let k = match rng.usize(3) {
+                0 => rng.range(1, 32767),
+                1 => rng.range(1, 16_000_000),
+                _ => rng.range(1, 70_000),
+            };
+            let st = format!("X=RND(-{}):PRINT RND(1);RND(1);RND(0)", k);
+            script.push(st.clone());
+            let (ta, _) = cmd(&mut a, &st);
+            // the other session draws a few numbers in between
+            if rng.coin() {
+                cmd(&mut b, "Y=RND(1)+RND(1)");
+            }
+            let (tb, _) = cmd(&mut b, &st);
+            ctx.count("rnd_seeds_compared");
+            if ta != tb {
+                ctx.violation(
+                    "run-depends-on-history",
+                    "reset:rnd-seed",
+                    &format!("{:?} prints {:?} in a fresh interpreter and {:?} after other draws", st, ta, tb),
+                    &script.join("\n"),
+                );
+                return;
+            }
+        }
+        ctx.eval(&script.join("\n"), true);
+    }
+
     fn c12(&self, rng: &mut Rng, ctx: &mut Ctx) {
+        if rng.chance(1, 25) {
+            return self.c12_rnd(rng, ctx);
+        }
         let p1 = gen_prog(rng, true);
         let p2 = if rng.chance(1, 3) { p1.clone() } else { gen_prog(rng, true) };
         let l1 = gen::render(&p1);
